@@ -411,7 +411,8 @@ static bool blockingFeedsWeak(const std::vector<StageSpec> &st)
 	}
 	return false;
 }
-// regDownstreamBlocking -> … widthExtend … -> a stage whose ready waits for valid: widthExtend derives ready(source) from
+// regDownstreamBlocking -> … -> widthReduce (ratio > 1), or regDownstreamBlocking -> … widthExtend … -> a stage whose ready
+// waits for valid: simulator pessimism, not a defect of the hardware. widthExtend derives ready(source) from
 // eop(source) of whatever the (never loaded) blocking register holds at power-on, which the simulator treats as undefined
 // for good — nothing to compare; such chains are not generated
 static bool blockingFeedsWeakThroughPext(const std::vector<StageSpec> &st)
@@ -421,7 +422,10 @@ static bool blockingFeedsWeakThroughPext(const std::vector<StageSpec> &st)
 		bool pext = false;
 		for (size_t j = i + 1; j < st.size(); j++) {
 			Kind k = st[j].kind;
-			if ((k == RED || k == PRED) && st[j].a > 1) { if (pext) return true; break; }
+			// widthReduce: ready(source) = ready(out) & (isLast | eop(source) & …) reads the payload of the blocking register, which is
+			// never loaded while that ready is undefined: the simulator keeps the register's valid undefined for good
+			if (k == PRED && st[j].a > 1) return true;
+			if (k == RED && st[j].a > 1) { if (pext) return true; break; }
 			if (k == PEXT) pext = true;
 			bool passes = k == STALL || k == EXT || k == RED || k == PEXT || k == PRED || (k == DLY && st[j].a == 0) || k == DSB;
 			if (!passes) break;
@@ -593,7 +597,11 @@ int main(int argc, char **argv)
 	std::string custom;
 	for (int i = 6; i < argc; i++) custom += std::string(i > 6 ? " " : "") + argv[i];
 	std::cout << "# prop=C16 seed=" << seed << " ncases=" << ncases << " ncycles=" << ncycles << " stallmode=" << stallmode << "\n";
-	vh::Rng rng(seed * 0x9E3779B97F4A7C15ull + 16);
+	// the case generator is seeded with a *hash* of the seed: splitmix64 advances its state by a constant, so states derived
+	// linearly from consecutive seeds would give the same case sequence shifted by one
+	vh::Rng seeder(seed ^ 0xC16C16C16C16ull);
+	seeder.next();
+	vh::Rng rng(seeder.next());
 	for (uint64_t id = 0; id < ncases; id++) {
 		vh::Rng crng = rng.fork();
 		CaseSpec cs = genCase(crng, id, ncycles, stallmode);
